@@ -103,7 +103,7 @@ def tlc(module, cfg=None, cwd=None, workers=1, timeout=1800, simulate=None, dept
     res = TLCResult()
     md = metadir or os.path.join(WORK, "tlc", "%s_%d_%d" % (os.path.basename(module).replace(".tla", ""), os.getpid(), random.randrange(1 << 30)))
     os.makedirs(os.path.dirname(md), exist_ok=True)
-    cmd = ["timeout", str(int(timeout)), "java", "-Xss1g", "-Xmx" + heap, "-XX:+UseParallelGC",
+    cmd = ["timeout", str(int(timeout)), "java", "-Xss1g", "-Xmx" + heap, "-XX:+UseParallelGC", "-XX:ParallelGCThreads=%d" % max(2, min(8, workers)),
            "-DTLA-Library=" + SPEC]
     if deque:
         cmd.append("-Dtlc2.tool.queue.IStateQueue=StateDeque")
